@@ -529,7 +529,7 @@ struct Gen {
       case 9: push_raw(mk(OP_SPLIT, {a}, {d, 0})); break;
       case 10: push_raw(mk(OP_SPLIT, {a}, {d, n + 1})); break;
       case 11: push_raw(mk(OP_BCAST, {a}, {d, 0})); break;
-      case 12: push_raw(mk(OP_BCAST, {a}, {d, 3})); break;   // invalid when n != 1
+      case 12: push_raw(mk(OP_BCAST, {a}, {d, r.coin(0.5) ? 3u : 1u})); break;   // invalid when n != 1 (size 1 looks like an identity)
       case 13: { Instr I(OP_RESHAPE); I.a = {a}; I.s = Shp({(uint32_t)sa.volume() + 1}, 1); I.has_s = true; push_raw(I); break; }
       case 14: { Instr I(OP_RESHAPE); I.a = {a}; I.s = Shp(dims, sa.b + 1); I.has_s = true; push_raw(I); break; }
       case 15: { int b = raw_leaf(Shp({2, 2, 2}, 1), dev); if (b >= 0) push_raw(r.coin(0.5) ? mk(OP_TRANSPOSE, {b}) : mk(OP_MATMUL, {b, b})); break; }
@@ -575,7 +575,7 @@ struct Gen {
         if (op == OP_SLICE) push_raw(mk(op, {a}, {hd, 0, 1}));
         else if (op == OP_PICK || op == OP_SSCE) push_raw(mk(op, {a}, {hd, 0}));
         else if (op == OP_SPLIT) push_raw(mk(op, {a}, {hd, 1}));
-        else if (op == OP_BCAST) push_raw(mk(op, {a}, {hd, 2}));
+        else if (op == OP_BCAST) push_raw(mk(op, {a}, {hd, r.coin(0.5) ? 2u : 1u}));
         else if (op == OP_CONCAT) push_raw(mk(op, {a, a}, {hd}));
         else push_raw(mk(op, {a}, {hd}));
         break; }
